@@ -808,3 +808,227 @@ def gen_eof_shape(rng):
         body = [("case", [([a, END], [act()]), ([b], [act(), ("match", END)])])] + fin()
     p = {"outs": outs, "hooks": ["hk"], "finish_codes": fcodes, "yield_codes": [], "body": body}
     return p, pr_prog(p)
+
+
+# ---------------------------------------------------------------------------
+# macros (C13): a program is generated once with macro declarations and calls and printed twice from the
+# same AST: with macros, and hand-inlined by `inline_prog` (textual substitution of arguments -- the
+# specification of what a macro call means)
+#   macro declaration: {"name", "params": [(kind, pname)], "body": [S]}   kinds: macro out match expr hook loop finishcode yieldcode
+#   inside macro bodies parameters appear as: ('var', p) / target names p (out), ('pmatch', p) patterns, ('pexpr', p) expressions,
+#   ('hook', p), ('break', p), ('finish', p), ('yield', p), ('call', p, args) (macro parameter)
+#   call statement: ('call', macroname, [arg...])   arg: ('id', name) | ('pat', P) | ('expr', E)
+# ---------------------------------------------------------------------------
+def pr_arg(a):
+    if a[0] == "id":
+        return a[1]
+    if a[0] == "pat":
+        return pr_pat(a[1])
+    e = a[1]
+    return "[%s]" % pr_expr(e)
+
+
+_pr_stmt_base = pr_stmt
+_pr_pat_base = pr_pat
+_pr_expr_base = pr_expr
+
+
+def pr_pat(p):
+    if p[0] == "pmatch":
+        return p[1]
+    return _pr_pat_base(p)
+
+
+def pr_expr(e, ctx=0):
+    if e[0] == "pexpr":
+        return e[1]
+    if e[0] == "paren":
+        return "(" + pr_expr(e[1], 0) + ")"
+    return _pr_expr_base(e, ctx)
+
+
+def pr_stmt(s, ind):
+    I = "    " * ind
+    if s[0] == "call":
+        return "%s%s(%s);\n" % (I, s[1], ", ".join(pr_arg(a) for a in s[2]))
+    if s[0] == "assign" and s[2][0] == "pexpr":
+        return "%s%s = %s;\n" % (I, s[1], s[2][1])
+    return _pr_stmt_base(s, ind)
+
+
+def pr_macro(m):
+    return "macro %s(%s) {\n%s}\n" % (m["name"], ", ".join("%s %s" % (k, n) for k, n in m["params"]), pr_stmts(m["body"], 1))
+
+
+def subst_expr(e, env, top=True):
+    k = e[0]
+    if k == "pexpr":
+        v = env[e[1]]
+        if v[0] != "expr":
+            return ("var", v[1])
+        # an argument substituted into a larger expression keeps its own tree: textual expansion puts it in parentheses
+        return v[1] if (top or v[1][0] in ("num", "var", "chr", "last", "len")) else ("paren", v[1])
+    if k == "var":
+        return ("var", env[e[1]][1]) if e[1] in env and env[e[1]][0] == "id" else e
+    if k in ("len",):
+        return (k, env[e[1]][1]) if e[1] in env else e
+    if k == "idx":
+        return ("idx", env[e[1]][1] if e[1] in env else e[1], subst_expr(e[2], env, True))
+    if k == "bin":
+        return ("bin", e[1], subst_expr(e[2], env, False), subst_expr(e[3], env, False))
+    if k in ("not", "neg"):
+        return (k, subst_expr(e[1], env, False))
+    return e
+
+
+def subst_pat(p, env):
+    if p[0] == "pmatch":
+        return env[p[1]][1]
+    if p[0] == "concat":
+        return ("concat", [subst_pat(x, env) for x in p[1]])
+    return p
+
+
+def subst_stmts(stmts, env, macros):
+    out = []
+    nm = lambda n: env[n][1] if n in env else n
+    for s in stmts:
+        k = s[0]
+        if k == "call":
+            target = nm(s[1])
+            args = []
+            for a in s[2]:
+                if a[0] == "id":
+                    args.append(env.get(a[1], a))
+                elif a[0] == "pat":
+                    args.append(("pat", subst_pat(a[1], env)))
+                else:
+                    args.append(("expr", subst_expr(a[1], env)))
+            m = macros[target]
+            env2 = {pn: av for (pk, pn), av in zip(m["params"], args)}
+            out += subst_stmts(m["body"], env2, macros)
+        elif k == "match": out.append(("match", subst_pat(s[1], env)))
+        elif k == "wait": out.append(("wait", subst_pat(s[1], env)))
+        elif k == "append": out.append(("append", nm(s[1]), subst_pat(s[2], env)))
+        elif k == "appc": out.append(("appc", nm(s[1]), subst_expr(s[2], env)))
+        elif k == "assign": out.append(("assign", nm(s[1]), subst_expr(s[2], env)))
+        elif k == "assigns": out.append(("assigns", nm(s[1]), s[2]))
+        elif k == "delete": out.append(("delete", nm(s[1])))
+        elif k == "hook": out.append(("hook", nm(s[1])))
+        elif k == "finish": out.append(("finish", nm(s[1]) if s[1] else None))
+        elif k == "yield": out.append(("yield", nm(s[1])))
+        elif k == "break": out.append(("break", nm(s[1]) if s[1] else None))
+        elif k == "loop": out.append(("loop", s[1], subst_stmts(s[2], env, macros)))
+        elif k == "case": out.append(("case", [([p if p == "else" else subst_pat(p, env) for p in preds], subst_stmts(b, env, macros)) for preds, b in s[1]]))
+        elif k == "optional": out.append(("optional", subst_stmts(s[1], env, macros)))
+        elif k == "try": out.append(("try", subst_stmts(s[1], env, macros), s[2], subst_stmts(s[3], env, macros)))
+        elif k == "foreach": out.append(("foreach", subst_stmts(s[1], env, macros), subst_stmts(s[2], env, macros)))
+        elif k == "if": out.append(("if", [(subst_expr(c, env), subst_stmts(b, env, macros)) for c, b in s[1]], subst_stmts(s[2], env, macros) if s[2] is not None else None))
+        else:
+            out.append(s)
+    return out
+
+
+def gen_macro_program(rng, capture=False):
+    """returns (source with macros, source hand-inlined, description)"""
+    outs = [{"type": "int", "name": "n0", "default": None}, {"type": "int", "name": "n1", "default": 3},
+            {"type": "str", "name": "s0", "size": 8, "null": True, "default": None}]
+    hooks, fcodes, ycodes = ["h0", "h1"], ["F0", "F1"], ["Y0", "Y1"]
+    lit = lambda: ("lit", bytes(rng.choice(b"abcdefgh") for _ in range(rng.randint(1, 3))))
+    delim = lambda: ("lit", bytes([rng.choice(b";,:!#")]))
+    pname = (lambda base: base) if capture else (lambda base: base)
+    M = {}
+    def add(name, params, body):
+        M[name] = {"name": name, "params": params, "body": body}
+    add("m_set", [("out", "o"), ("expr", "e")], [("assign", "o", ("bin", "+", ("pexpr", "e"), ("num", 1)))])
+    add("m_set2", [("out", "o"), ("expr", "e")], [("assign", "o", ("pexpr", "e"))])
+    add("m_app", [("match", "w"), ("out", "t")], [("append", "t", ("pmatch", "w"))])
+    add("m_hook", [("hook", "h"), ("match", "w")], [("hook", "h"), ("match", ("pmatch", "w")), ("hook", "h")])
+    add("m_fin", [("finishcode", "c"), ("match", "w")], [("match", ("pmatch", "w")), ("finish", "c")])
+    add("m_brk", [("loop", "tgt"), ("match", "w")], [("match", ("pmatch", "w")), ("break", "tgt")])
+    add("m_zero", [], [("match", delim()), ("assign", "n0", ("num", 7))])
+    add("m_mac", [("macro", "mm"), ("hook", "h")], [("call", "mm", []), ("hook", "h")])
+    # (parameter names differ from the callees' so that no late-bound argument is captured; the capture case is generated separately)
+    add("m_nest", [("out", "o2"), ("match", "w2"), ("expr", "e2")], [("call", "m_app", [("pat", ("pmatch", "w2")), ("id", "s0")]), ("call", "m_set", [("id", "o2"), ("expr", ("bin", "+", ("pexpr", "e2"), ("num", 2)))])])
+    add("m_each", [("out", "o"), ("match", "w")], [("assign", "o", ("num", 0)), ("foreach", [("match", ("pmatch", "w"))], [("assign", "o", ("bin", "+", ("bin", "*", ("var", "o"), ("num", 10)), ("bin", "-", ("last",), ("chr", 48))))])])
+    add("m_yield", [("yieldcode", "y"), ("match", "w")], [("match", ("pmatch", "w")), ("yield", "y")])
+    # parameters named like global entities, called with the names rotated (simultaneous substitution)
+    add("m_swap", [("out", "n0"), ("out", "n1")], [("assign", "n0", ("num", 1)), ("assign", "n1", ("bin", "+", ("var", "n0"), ("num", 2)))])
+    add("m_hswap", [("hook", "h0"), ("hook", "h1"), ("match", "w")], [("hook", "h0"), ("match", ("pmatch", "w")), ("hook", "h1")])
+    add("m_cswap", [("finishcode", "F0"), ("finishcode", "F1"), ("match", "w")], [("case", [([("pmatch", "w")], [("finish", "F0")]), (["else"], [("finish", "F1")])])])
+    if capture:
+        # the inner macro's expr parameter has the same name as the outer one's and is passed straight through
+        add("m_cap_in", [("expr", "e")], [("assign", "n0", ("pexpr", "e"))])
+        add("m_cap_out", [("expr", "e")], [("call", "m_cap_in", [("expr", ("pexpr", "e"))])])
+    body = []
+    use_yield = rng.random() < 0.3
+    calls = ["m_set", "m_set2", "m_app", "m_hook", "m_zero", "m_mac", "m_nest", "m_each", "m_swap", "m_hswap"] + (["m_yield"] if use_yield else [])
+    for _ in range(rng.randint(2, 4)):
+        c = rng.choice(calls)
+        e = rng.choice([("num", rng.choice([1, 5, 40])), ("bin", "*", ("var", "n1"), ("num", 2)), ("var", "n1"), ("bin", "+", ("var", "n0"), ("var", "n1"))])
+        w = rng.choice([lit(), ("re", ("plus", ("cls", "\\d"))), ("casei", b"xy")])
+        if c in ("m_set", "m_set2"): body.append(("call", c, [("id", rng.choice(["n0", "n1"])), ("expr", e)])); body.append(("match", delim()))
+        elif c == "m_app": body.append(("call", c, [("pat", w), ("id", "s0")])); body.append(("match", delim()))
+        elif c == "m_hook": body.append(("call", c, [("id", rng.choice(hooks)), ("pat", lit())]))
+        elif c == "m_zero": body.append(("call", c, []))
+        elif c == "m_mac": body.append(("call", c, [("id", "m_zero"), ("id", rng.choice(hooks))]))
+        elif c == "m_nest": body.append(("call", c, [("id", "n1"), ("pat", w), ("expr", e)])); body.append(("match", delim()))
+        elif c == "m_each": body.append(("call", c, [("id", "n0"), ("pat", ("re", ("plus", ("cls", "\\d"))))])); body.append(("match", delim()))
+        elif c == "m_yield": body.append(("call", c, [("id", rng.choice(ycodes)), ("pat", lit())]))
+        elif c == "m_swap": body.append(("call", c, [("id", "n1"), ("id", "n0")])); body.append(("match", delim()))
+        elif c == "m_hswap": body.append(("call", c, [("id", "h1"), ("id", "h0"), ("pat", lit())]))
+    if capture:
+        body.insert(0, ("call", "m_cap_out", [("expr", ("bin", "+", ("var", "n1"), ("num", 1)))]))
+        body.insert(1, ("match", delim()))
+    if rng.random() < 0.5:
+        body.append(("loop", "LP", [("case", [([lit()], [("hook", "h0")]), (["else"], [("call", "m_brk", [("id", "LP"), ("pat", delim())])])])]))
+    if rng.random() < 0.5:
+        body.append(("call", "m_fin", [("id", rng.choice(fcodes)), ("pat", lit())]))
+    elif rng.random() < 0.5:
+        body.append(("call", "m_cswap", [("id", "F1"), ("id", "F0"), ("pat", lit())]))
+    prog = {"outs": outs, "hooks": hooks, "finish_codes": fcodes, "yield_codes": ycodes if use_yield else [], "body": body}
+    used = set()
+    def collect(stmts):
+        for s in stmts:
+            if s[0] == "call" and s[1] in M and s[1] not in used:
+                used.add(s[1]); collect(M[s[1]]["body"])
+                for a in s[2]:
+                    if a[0] == "id" and a[1] in M and a[1] not in used:
+                        used.add(a[1]); collect(M[a[1]]["body"])
+            for part in s[1:]:
+                if isinstance(part, list):
+                    for x in part:
+                        if isinstance(x, tuple) and len(x) >= 2 and isinstance(x[-1], list):
+                            collect(x[-1])
+                    if part and isinstance(part[0], tuple) and isinstance(part[0][0], str):
+                        collect(part)
+    collect(body)
+    order = [n for n in M if n in used]
+    with_macros = dict(prog, macros=[pr_macro(M[n]) for n in order])
+    inlined = dict(prog, body=subst_stmts(body, {}, M), macros=[])
+    return pr_prog(with_macros), pr_prog(inlined), {"macros_used": order, "yield": use_yield, "capture": capture}
+
+
+def gen_greedy_program(rng):
+    """greedy case statements with priorities, overlapping literals and general regexes (C08, C09, C20)"""
+    words = [b"if", b"in", b"int", b"for", b"id", b"i", b"fo"]
+    rng.shuffle(words)
+    clauses = []
+    general = rng.choice([("re", ("plus", ("set", [(97, 122)], False))), ("re", ("plus", ("cls", "\\w"))), ("re", ("seq", [("c", 105), ("set", [(97, 122)], False)]))])
+    k = 0
+    def body():
+        nonlocal k
+        k += 1
+        return [("assign", "kind", ("num", k))]
+    clauses.append((None, [general], body()))
+    for w in words[:rng.randint(1, 3)]:
+        clauses.append((rng.choice([1, 1, 2]), [("lit", w)], body()))
+    if rng.random() < 0.5:
+        clauses.append((rng.choice([None, 1]), [("re", ("plus", ("cls", "\\d")))], body()))
+    if rng.random() < 0.5:
+        # a second pattern at an explicit priority that matches some of the literal words too (ties must be rejected, not resolved silently)
+        clauses.append((rng.choice([1, 1, 2]), [("re", ("seq", [("c", rng.choice(b"if")), ("set", [(97, 122)], False)]))], body()))
+    rng.shuffle(clauses)
+    p = {"outs": [{"type": "int", "name": "kind", "default": None}], "hooks": [], "finish_codes": [], "yield_codes": [],
+         "body": [("loop", None, [("gcase", clauses), ("match", ("lit", b";"))])]}
+    return p, pr_prog(p)
